@@ -577,6 +577,11 @@ func main() {
 		}
 		return
 	}
+	// -mode struct | large | ecshort: only one of the round-3 passes
+	if mode == "struct" || mode == "large" || mode == "ecshort" {
+		w.round3(mode)
+		return
+	}
 
 	// every pool key alone, unmutated: each key type is accepted and usable
 	for _, pk := range w.pool.Keys {
@@ -605,4 +610,23 @@ func main() {
 	w.rng = hlib.NewRng(*hlib.FlagSeed, "c14-lengths")
 	w.lengthMutations()
 	w.constructors()
+
+	// round 3, again last and on their own streams: structured public/private mismatches, large
+	// keysets with structural faults at chosen positions, foreign integer encodings of EC keys
+	w.round3("")
+}
+
+func (w *world) round3(only string) {
+	if only == "" || only == "struct" {
+		w.rng = hlib.NewRng(*hlib.FlagSeed, "c14-struct")
+		w.structuredMismatches()
+	}
+	if only == "" || only == "large" {
+		w.rng = hlib.NewRng(*hlib.FlagSeed, "c14-large")
+		w.largeKeysets()
+	}
+	if only == "" || only == "ecshort" {
+		w.rng = hlib.NewRng(*hlib.FlagSeed, "c14-ecshort")
+		w.ecShortEncodings()
+	}
 }
